@@ -65,7 +65,7 @@ pub fn gen_poly(rng: &mut Rng) -> Option<Case> {
   let mut pts: Vec<(f64, f64)> = bear.iter().map(|&b| match special { Some((sp, th)) if th == b => (sp.0.rem_euclid(TWO_PI), sp.1), _ => point_at(lon, lat, if convex { rmax } else { rmax * (0.3 + 0.7 * rng.f()) }, b) }).collect();
   // one polygon in 12 is a longitude / latitude box: two edges exactly along meridians (consecutive vertices with the same longitude),
   // two edges between vertices of equal latitude
-  let mut convex = convex; let mut on_seam = false; let mut near_meridian_edge = false; let mut cell_polygon = false; let mut pole_edge = false; let mut apex_vertex = false;
+  let mut convex = convex; let mut on_seam = false; let mut near_meridian_edge = false; let mut cell_polygon = false; let mut pole_edge = false; let mut apex_vertex = false; let mut equator_edge = false;
   if rng.below(12) == 0 && special.is_none() && lat.abs() + 1.5 * rmax < PI / 2.0 {
     let (w, h) = (rmax * rng.range(0.2, 0.7) / lat.cos().max(1e-3), rmax * rng.range(0.2, 0.7));
     pts = vec![(lon - w, lat - h), (lon + w, lat - h), (lon + w, lat + h), (lon - w, lat + h)];
@@ -125,9 +125,23 @@ pub fn gen_poly(rng: &mut Rng) -> Option<Case> {
     let fine: Vec<u8> = (0..30u8).filter(|&d| { let q = rmax * nside(d) as f64; q >= 2.0 && q <= 40.0 }).collect(); if !fine.is_empty() { depth = *rng.pick(&fine); }
     convex = true; apex_vertex = true;
   }
+  // one polygon in 24: a convex triangle with an edge exactly ON the equator (two vertices of latitude 0: the normal of the edge is (0, 0, nz),
+  // the apex direction is (0, 0)) or exactly SYMMETRIC about it (latitudes b and -b: the great circle's apex is as far north as south)
+  if rng.below(24) == 0 && special.is_none() && !on_seam && !near_meridian_edge && !pole_edge && !apex_vertex {
+    let l0 = match rng.below(3) { 0 => 0.0, 1 => (rng.below(8) as f64) * PI / 4.0, _ => rng.f() * TWO_PI };
+    let dd = rng.range(0.05, 0.28) * if rng.coin() { 1.0 } else { -1.0 }; let hgt = rng.range(0.03, 0.25) * if rng.coin() { 1.0 } else { -1.0 };
+    pts = if rng.coin() { vec![(l0, 0.0), (l0 + dd, if rng.coin() { 0.0 } else { -0.0 }), (l0 + dd * rng.range(0.1, 0.9), hgt)] }
+          else { let b = rng.range(0.01, 0.12); vec![(l0, b), (l0 + dd, -b), (l0 + dd * rng.range(0.3, 0.7) + hgt.abs(), hgt * 0.3)] };
+    let sv = pts.iter().fold([0.0; 3], |a, q| { let v = v3(*q); [a[0] + v[0], a[1] + v[1], a[2] + v[2]] }); let nn = norm(sv);
+    lon = sv[1].atan2(sv[0]).rem_euclid(TWO_PI); lat = (sv[2] / nn).asin();
+    rmax = pts.iter().map(|q| dist(*q, (lon, lat))).fold(0.0, f64::max);
+    let fine: Vec<u8> = (0..30u8).filter(|&d| { let q = rmax * nside(d) as f64; q >= 2.0 && q <= 40.0 }).collect(); if !fine.is_empty() { depth = *rng.pick(&fine); }
+    // (the second shape is a triangle whose convexity depends on the draw: the judge's convex-only rules are applied only if it is convex)
+    convex = true; equator_edge = true;
+  }
   // one polygon in 20: the four vertices of a cell of depth 22..29 (as the crate returns them), covered at that depth .. that depth + 2:
   // edges of 1e-9 .. 1e-6 rad running exactly along cell-edge directions (where the exact mode looks for special points)
-  if rng.below(20) == 0 && special.is_none() && !pole_edge && !apex_vertex {
+  if rng.below(20) == 0 && special.is_none() && !pole_edge && !apex_vertex && !equator_edge {
     let dv = 22 + rng.below(8) as u8; let cs = crate::gen::sample_cells(rng, dv, 4); let hv = *rng.pick(&cs);
     let vs = nested::get_or_create(dv).vertices(hv); let cc = nested::get_or_create(dv).center(hv);
     if cc.1.abs() < PI / 2.0 - 0.05 {
@@ -140,7 +154,7 @@ pub fn gen_poly(rng: &mut Rng) -> Option<Case> {
   // (one in 3 when an edge lies on a meridian k.pi/2: the two ends of the same meridian given with different numbers of turns)
   if rng.below(if on_seam { 3 } else { 12 }) == 0 { for p in pts.iter_mut() { if rng.coin() { p.0 += *rng.pick(&[-2.0, -1.0, 1.0]) * TWO_PI; } } }
   for p in pts.iter() { vl.push(p.0); vb.push(p.1); }
-  Some(Case::new("poly").u("depth", depth as u64).b("convex", convex).b("cw", cw).f("lon", lon).f("lat", lat).f("R", rmax).fl("vl", &vl).fl("vb", &vb).u("s", rng.next() >> 1).s("cls", &format!("R~1e{}{}", rmax.log10().floor() as i32, if apex_vertex { "/vertex-at-the-apex-of-its-edge" } else if pole_edge { "/edge-aimed-at-a-pole" } else if cell_polygon { "/cell-of-depth>=22" } else if on_seam { "/edge-on-k.pi/2" } else if near_meridian_edge { "/edge-almost-meridian" } else { "" })))
+  Some(Case::new("poly").u("depth", depth as u64).b("convex", convex).b("cw", cw).f("lon", lon).f("lat", lat).f("R", rmax).fl("vl", &vl).fl("vb", &vb).u("s", rng.next() >> 1).s("cls", &format!("R~1e{}{}", rmax.log10().floor() as i32, if equator_edge { "/edge-on-or-symmetric-about-the-equator" } else if apex_vertex { "/vertex-at-the-apex-of-its-edge" } else if pole_edge { "/edge-aimed-at-a-pole" } else if cell_polygon { "/cell-of-depth>=22" } else if on_seam { "/edge-on-k.pi/2" } else if near_meridian_edge { "/edge-almost-meridian" } else { "" })))
 }
 
 fn run(ctx: &mut Ctx, extra: &mut BTreeMap<String, String>) {
